@@ -154,8 +154,8 @@ func ruleFullQueueError(c *core.Ctx, a *epAnchors) {
 	var sends []ssa.CallInstruction
 	for _, f := range unit {
 		for _, call := range core.Calls(f) {
-			if core.IsCallTo(call, a.send) {
-				sends = append(sends, call)
+			if f := core.StaticCallee(call); f != nil && streamWriters(c, a)[f] {
+				sends = append(sends, call) // Send, or the private method Send itself forwards to
 			}
 		}
 	}
